@@ -34,6 +34,39 @@ def EvGood (p : WalParams) (crc : Bytes → Nat) (sync : Nat) (L : List (List Lo
   ∃ s, Good p crc L ev.flushed s ∧ Fits p crc L ev.flushed ∧ ev.flushed.length ≤ L.length ∧
     s ≤ ev.walNext ∧ s < nx ∧ (sync = 2 → ev.ackedSeq ≤ s)
 
+/-! power loss: the synced image, viewed as a pseudo-event so that the same `EvGood` lemmas apply -/
+
+/-- the event `CSt.at` records -/
+def newEv (c : CSt) (s : String) : Event :=
+  { site := s, flushed := c.files.map (·.flushed), walNext := c.eng.walNext,
+    ackedSeq := if s == "harness.ack" then c.eng.lastSeq else c.ackedSeq }
+
+theorem at_events' (c : CSt) (s : String) : (c.at s).events = newEv c s :: c.events := rfl
+
+theorem syncedOf_at (c : CSt) (s : String) :
+    syncedOf (c.at s).events = if isSyncSite s then c.files.map (·.flushed) else syncedOf c.events := by
+  rw [at_events]; simp only [syncedOf]
+
+/-- the currently synced image -/
+def pcurEv (c : CSt) : Event :=
+  { site := "", flushed := syncedOf c.events, walNext := c.eng.walNext, ackedSeq := c.eng.lastSeq }
+
+/-- the synced image right at event `ev` (whose predecessors are `rest`, newest first) -/
+def pev (ev : Event) (rest : List Event) : Event := { ev with flushed := syncedOf (ev :: rest) }
+
+theorem EvGood.ext {p : WalParams} {crc : Bytes → Nat} {sync : Nat} {L0 : List (List LogEntry)} {last new : List LogEntry}
+    {nx nx' : Nat} {ev : Event} (h : EvGood p crc sync (L0 ++ [last]) nx ev)
+    (hnew : ∀ e ∈ new, nx ≤ e.seq) (hnx : nx ≤ nx') : EvGood p crc sync (L0 ++ [last ++ new]) nx' ev := by
+  obtain ⟨s, hg, hf, hl, hw, hn, ha⟩ := h
+  exact ⟨s, good_ext p crc L0 last new _ s hf hg (fun e he => by have := hnew e he; omega),
+    fits_ext p crc last new L0 _ hf, by simpa using hl, hw, by omega, ha⟩
+
+theorem EvGood.newfile {p : WalParams} {crc : Bytes → Nat} {sync : Nat} {L : List (List LogEntry)} {nx : Nat} {ev : Event}
+    (h : EvGood p crc sync L nx ev) : EvGood p crc sync (L ++ [[]]) nx ev := by
+  obtain ⟨s, hg, hf, hl, hw, hn, ha⟩ := h
+  exact ⟨s, good_newfile p crc L _ s hg, fits_newfile p crc L _ hl hf, by simp only [List.length_append]; omega,
+    hw, hn, ha⟩
+
 structure Inv (p : WalParams) (crc : Bytes → Nat) (sync : Nat) (c : CSt) (L : List (List LogEntry)) (nx : Nat) : Prop where
   streams : c.files.map (·.stream) = L.map (encL p crc)
   fits : ∀ f ∈ c.files, f.flushed ≤ f.stream.length
@@ -45,6 +78,8 @@ structure Inv (p : WalParams) (crc : Bytes → Nat) (sync : Nat) (c : CSt) (L : 
   acked : c.ackedSeq ≤ c.eng.lastSeq
   last_lt : c.eng.lastSeq < nx
   syn : c.sync = sync
+  pcur : EvGood p crc sync L nx (pcurEv c)
+  pevs : ∀ ev rest, (ev :: rest) <:+ c.events → EvGood p crc sync L nx (pev ev rest)
 
 /-- earlier files completely flushed, the current one consistent with the writer's buffer -/
 def Tight (p : WalParams) (crc : Bytes → Nat) (c : CSt) (L0 : List (List LogEntry)) (last : List LogEntry) : Prop :=
@@ -74,24 +109,56 @@ theorem Inv.vec_length {p : WalParams} {crc : Bytes → Nat} {sync : Nat} {c : C
 
 theorem Inv.at {p : WalParams} {crc : Bytes → Nat} {sync : Nat} {c : CSt} {L : List (List LogEntry)} {nx : Nat}
     (h : Inv p crc sync c L nx) (site : String) : Inv p crc sync (c.at site) L nx := by
-  refine ⟨h.streams, h.fits, h.ok, h.lt, h.nx_le, ?_, h.cur, ?_, h.last_lt, h.syn⟩
+  have hnew : EvGood p crc sync L nx (newEv c site) := by
+    unfold newEv
+    obtain ⟨s, hg, hs, hl⟩ := h.cur
+    refine ⟨s, hg, fits_of_files p crc _ _ h.streams h.fits, Nat.le_of_eq h.vec_length, ?_, hs, ?_⟩
+    · have := h.nx_le; simp only; omega
+    · intro h2
+      have := hl h2
+      have := h.acked
+      simp only
+      split <;> omega
+  refine ⟨h.streams, h.fits, h.ok, h.lt, h.nx_le, ?_, h.cur, ?_, h.last_lt, h.syn, ?_, ?_⟩
   · intro ev hev
     rw [at_events] at hev
     simp only [List.mem_cons] at hev
     rcases hev with rfl | hev
-    · obtain ⟨s, hg, hs, hl⟩ := h.cur
-      refine ⟨s, hg, fits_of_files p crc _ _ h.streams h.fits, Nat.le_of_eq h.vec_length, ?_, hs, ?_⟩
-      · have := h.nx_le; simp only; omega
-      · intro h2
-        have := hl h2
-        have := h.acked
-        simp only
-        split <;> omega
+    · exact hnew
     · exact h.evs ev hev
   · rw [at_ackedSeq]
     have := h.acked
     simp only [at_eng]
     split <;> omega
+  · -- the synced image after the new site
+    unfold pcurEv
+    rw [syncedOf_at]
+    by_cases hs : isSyncSite site = true
+    · rw [if_pos hs]
+      obtain ⟨s, hg, hf, hl, hw, hn, ha⟩ := hnew
+      obtain ⟨s0, _, _, hl0⟩ := h.cur
+      obtain ⟨s1, hg1, hs1, hl1⟩ := h.cur
+      exact ⟨s1, hg1, fits_of_files p crc _ _ h.streams h.fits, Nat.le_of_eq h.vec_length,
+        by have := h.nx_le; simp only [at_eng]; omega, hs1, hl1⟩
+    · rw [if_neg hs]; exact h.pcur
+  · intro ev rest hsuf
+    rw [at_events] at hsuf
+    rcases List.suffix_cons_iff.mp hsuf with heq | hsuf'
+    · injection heq with h1 h2
+      subst h1 h2
+      unfold pev
+      simp only [syncedOf]
+      by_cases hs : isSyncSite site = true
+      · rw [if_pos hs]; exact hnew
+      · rw [if_neg hs]
+        obtain ⟨s, hg, hf, hl, hw, hn, ha⟩ := h.pcur
+        refine ⟨s, hg, hf, hl, hw, hn, ?_⟩
+        intro h2
+        have h3 : c.eng.lastSeq ≤ s := ha h2
+        have := h.acked
+        show (if site == "harness.ack" then c.eng.lastSeq else c.ackedSeq) ≤ s
+        split <;> omega
+    · exact h.pevs ev rest hsuf'
 
 /-- `Inv` only looks at the files, the events, the counters -/
 theorem Inv.congr {p : WalParams} {crc : Bytes → Nat} {sync : Nat} {c c' : CSt} {L : List (List LogEntry)} {nx : Nat}
@@ -99,8 +166,12 @@ theorem Inv.congr {p : WalParams} {crc : Bytes → Nat} {sync : Nat} {c c' : CSt
     (hw : nx ≤ c'.eng.walNext + 1) (hl : c'.eng.lastSeq = c.eng.lastSeq) (ha : c'.ackedSeq = c.ackedSeq)
     (hs : c'.sync = c.sync) : Inv p crc sync c' L nx := by
   refine ⟨by rw [hf]; exact h.streams, by rw [hf]; exact h.fits, h.ok, h.lt, hw, by rw [he]; exact h.evs, ?_,
-    by rw [ha, hl]; exact h.acked, by rw [hl]; exact h.last_lt, by rw [hs]; exact h.syn⟩
-  rw [hf, hl]; exact h.cur
+    by rw [ha, hl]; exact h.acked, by rw [hl]; exact h.last_lt, by rw [hs]; exact h.syn, ?_, by rw [he]; exact h.pevs⟩
+  · rw [hf, hl]; exact h.cur
+  · obtain ⟨s, hg, hfi, hle, _, hn, hac⟩ := h.pcur
+    unfold pcurEv at hg hfi hle hac ⊢
+    rw [he, hl]
+    exact ⟨s, hg, hfi, hle, by simp only; omega, hn, hac⟩
 
 theorem Tight.congr {p : WalParams} {crc : Bytes → Nat} {c c' : CSt} {L0 : List (List LogEntry)} {last : List LogEntry}
     (h : Tight p crc c L0 last) (hf : c'.files = c.files) (hb : c'.buffered = c.buffered) (hc : c.cap ≤ c'.cap) :
@@ -157,7 +228,13 @@ theorem Inv.write {p : WalParams} {crc : Bytes → Nat} {sync : Nat} {c : CSt} {
   obtain ⟨s0, hg0, hs0, hl0⟩ := h.cur
   have hlen : (encL p crc (last ++ [e])).length = (encL p crc last).length + (encodeEntry p crc (toWal e)).length := by
     rw [encL_append, encL_singleton, List.length_append]
-  refine ⟨?_, ?_, ?_, ?_, ?_, ?_, ?_, ?_, ?_, ?_⟩
+  have hnewseq : ∀ e' ∈ [e], c.eng.walNext ≤ e'.seq := by
+    intro e' he'
+    simp only [List.mem_singleton] at he'
+    subst he'; omega
+  have hpc : pcurEv (writeEntry p crc c (toWal e)) = pcurEv c := by rw [heq]; rfl
+  refine ⟨?_, ?_, ?_, ?_, ?_, ?_, ?_, ?_, ?_, ?_, by rw [hpc]; exact h.pcur.ext hnewseq (Nat.le_succ _),
+    fun ev rest hsuf => (h.pevs ev rest (by rw [heq] at hsuf; exact hsuf)).ext hnewseq (Nat.le_succ _)⟩
   · rw [hsh'.1, List.map_append, map_fullFile_stream]; simp
   · intro f hf
     rw [hsh'.1] at hf
@@ -239,7 +316,7 @@ theorem inv_flushCur {p : WalParams} {crc : Bytes → Nat} {sync : Nat} {c : CSt
   obtain ⟨fl, hsh⟩ := ht
   have hsh' := flushCur_shape hsh
   refine ⟨?_, ⟨_, hsh'⟩, rfl⟩
-  refine ⟨?_, ?_, h.ok, h.lt, h.nx_le, h.evs, ?_, h.acked, h.last_lt, h.syn⟩
+  refine ⟨?_, ?_, h.ok, h.lt, h.nx_le, h.evs, ?_, h.acked, h.last_lt, h.syn, h.pcur, h.pevs⟩
   · rw [hsh'.1, List.map_append, map_fullFile_stream]; simp
   · intro f hf
     rw [hsh'.1] at hf
@@ -256,31 +333,63 @@ theorem inv_flushCur {p : WalParams} {crc : Bytes → Nat} {sync : Nat} {c : CSt
 theorem inv_maybeSync {p : WalParams} {crc : Bytes → Nat} {sync : Nat} {c : CSt} {L0 : List (List LogEntry)}
     {last : List LogEntry} {nx : Nat} (h : Inv p crc sync c (L0 ++ [last]) nx) (ht : Tight p crc c L0 last) :
     Inv p crc sync (maybeSync c) (L0 ++ [last]) nx ∧ Tight p crc (maybeSync c) L0 last ∧
-    (sync = 2 → (maybeSync c).buffered = 0) ∧ (maybeSync c).eng = c.eng := by
+    (sync = 2 → (maybeSync c).buffered = 0) ∧ (maybeSync c).eng = c.eng ∧
+    (sync = 2 → syncedOf (maybeSync c).events = (maybeSync c).files.map (·.flushed)) := by
   unfold maybeSync
   by_cases hc : c.sync = 2 ∨ (c.sync = 1 ∧ c.batchBytes ≥ c.syncBytes)
   · rw [if_pos hc]
     obtain ⟨h1, t1, b1⟩ := inv_flushCur h ht
     have h2 := (h1.at "wal.sync.flushed").at "wal.sync.synced"
     have t2 := (t1.at "wal.sync.flushed").at "wal.sync.synced"
-    refine ⟨h2.congr rfl rfl h2.nx_le rfl rfl rfl, t2.congr rfl rfl (Nat.le_refl _), fun _ => b1, rfl⟩
+    refine ⟨h2.congr rfl rfl h2.nx_le rfl rfl rfl, t2.congr rfl rfl (Nat.le_refl _), fun _ => b1, rfl, fun _ => ?_⟩
+    show syncedOf (((flushCur c).at "wal.sync.flushed").at "wal.sync.synced").events = _
+    rw [syncedOf_at, if_pos (by decide)]
+    rfl
   · rw [if_neg hc]
-    refine ⟨h, ht, ?_, rfl⟩
-    intro h2
-    have := h.syn
-    exact absurd (Or.inl (by omega)) hc
+    have hcontra : ¬ sync = 2 := by
+      intro h2
+      have := h.syn
+      exact absurd (Or.inl (by omega)) hc
+    exact ⟨h, ht, fun h2 => absurd h2 hcontra, rfl, fun h2 => absurd h2 hcontra⟩
 
 
 /-! ### changing the last acknowledged-able sequence number -/
 
 theorem Inv.setLast {p : WalParams} {crc : Bytes → Nat} {sync : Nat} {c c' : CSt} {L0 : List (List LogEntry)}
     {last : List LogEntry} {nx : Nat} (h : Inv p crc sync c (L0 ++ [last]) nx) (ht : Tight p crc c L0 last)
-    (hb : sync = 2 → c.buffered = 0) (hf : c'.files = c.files) (he : c'.events = c.events)
+    (hb : sync = 2 → c.buffered = 0) (hps : sync = 2 → syncedOf c.events = c.files.map (·.flushed))
+    (hf : c'.files = c.files) (he : c'.events = c.events)
     (hw : nx ≤ c'.eng.walNext + 1) (hl : c'.eng.lastSeq = nx - 1) (ha : c'.ackedSeq = c.ackedSeq)
     (hs : c'.sync = c.sync) : Inv p crc sync c' (L0 ++ [last]) nx := by
   have hpos : c.eng.lastSeq < nx := h.last_lt
   refine ⟨by rw [hf]; exact h.streams, by rw [hf]; exact h.fits, h.ok, h.lt, hw, by rw [he]; exact h.evs, ?_,
-    ?_, by omega, by rw [hs]; exact h.syn⟩
+    ?_, by omega, by rw [hs]; exact h.syn, ?_, by rw [he]; exact h.pevs⟩
+  rotate_left 2
+  · -- the synced image covers the new last sequence number: with synchronous logging the record was synced
+    by_cases h2 : sync = 2
+    · obtain ⟨fl, hsh⟩ := ht
+      have hv : syncedOf c'.events = c.files.map (·.flushed) := by rw [he]; exact hps h2
+      refine ⟨nx - 1, ?_, ?_, ?_, ?_, by omega, fun _ => ?_⟩
+      · show Good p crc _ (syncedOf c'.events) (nx - 1)
+        rw [hv]; exact cur_of_full hsh (hb h2) h.lt
+      · show Fits p crc _ (syncedOf c'.events)
+        rw [hv]; exact fits_of_files p crc _ _ h.streams h.fits
+      · show (syncedOf c'.events).length ≤ _
+        rw [hv]; exact Nat.le_of_eq h.vec_length
+      · show nx - 1 ≤ c'.eng.walNext
+        omega
+      · show c'.eng.lastSeq ≤ nx - 1
+        omega
+    · obtain ⟨s, hg, hfi, hle, _, hn, _⟩ := h.pcur
+      refine ⟨s, ?_, ?_, ?_, ?_, hn, fun h' => absurd h' h2⟩
+      · show Good p crc _ (syncedOf c'.events) s
+        rw [he]; exact hg
+      · show Fits p crc _ (syncedOf c'.events)
+        rw [he]; exact hfi
+      · show (syncedOf c'.events).length ≤ _
+        rw [he]; exact hle
+      · show s ≤ c'.eng.walNext
+        omega
   · rw [hf, hl]
     by_cases h2 : sync = 2
     · obtain ⟨fl, hsh⟩ := ht
@@ -291,6 +400,33 @@ theorem Inv.setLast {p : WalParams} {crc : Bytes → Nat} {sync : Nat} {c c' : C
 
 /-! ### a batch: no flush can happen while its records are written -/
 
+theorem syncedOf_append_nonsync : ∀ (news rest : List Event), (∀ ev ∈ news, isSyncSite ev.site = false) →
+    syncedOf (news ++ rest) = syncedOf rest := by
+  intro news
+  induction news with
+  | nil => intro rest _; rfl
+  | cons a news ih =>
+    intro rest h
+    simp only [List.cons_append, syncedOf]
+    rw [if_neg (by rw [h a (by simp)]; decide)]
+    exact ih rest (fun ev hev => h ev (by simp [hev]))
+
+theorem suffix_append_cases {α} {x : α} {rest : List α} : ∀ {news old : List α}, (x :: rest) <:+ news ++ old →
+    (x :: rest) <:+ old ∨ ∃ pre post, news = pre ++ x :: post ∧ rest = post ++ old := by
+  intro news
+  induction news with
+  | nil => intro old h; left; simpa using h
+  | cons a news ih =>
+    intro old h
+    rw [List.cons_append] at h
+    rcases List.suffix_cons_iff.mp h with heq | h'
+    · injection heq with h1 h2
+      right
+      exact ⟨[], news, by rw [h1]; rfl, h2⟩
+    · rcases ih h' with hold | ⟨pre, post, hp, hr⟩
+      · left; exact hold
+      · right; exact ⟨a :: pre, post, by rw [hp]; rfl, hr⟩
+
 theorem batchFold_spec (p : WalParams) (hp : p.WF) (crc : Bytes → Nat) :
     ∀ (les : List LogEntry) (c : CSt) (A : List WFile) (st : Bytes) (fl : Nat),
     Shape c A st fl → (∀ e ∈ les, payloadSize p (toWal e) ≤ p.maxRecord) →
@@ -298,13 +434,15 @@ theorem batchFold_spec (p : WalParams) (hp : p.WF) (crc : Bytes → Nat) :
     ∃ bb evs, les.foldl (fun c e => writeEntry p crc (c.at "wal.batch.record") (toWal e)) c =
         { c with files := A ++ [{ stream := st ++ encL p crc les, flushed := fl }],
                  buffered := c.buffered + (encL p crc les).length, batchBytes := bb, events := evs } ∧
-      ∀ ev ∈ evs, ev ∈ c.events ∨
-        (ev.flushed = c.files.map (·.flushed) ∧ ev.walNext = c.eng.walNext ∧ ev.ackedSeq = c.ackedSeq) := by
+      (∀ ev ∈ evs, ev ∈ c.events ∨
+        (ev.flushed = c.files.map (·.flushed) ∧ ev.walNext = c.eng.walNext ∧ ev.ackedSeq = c.ackedSeq)) ∧
+      (∃ news, evs = news ++ c.events ∧
+        ∀ ev ∈ news, ev.site = "wal.batch.record" ∧ ev.walNext = c.eng.walNext ∧ ev.ackedSeq = c.ackedSeq) := by
   intro les
   induction les with
   | nil =>
     intro c A st fl h _ _
-    refine ⟨c.batchBytes, c.events, ?_, fun ev hev => Or.inl hev⟩
+    refine ⟨c.batchBytes, c.events, ?_, fun ev hev => Or.inl hev, [], rfl, fun ev hev => by cases hev⟩
     simp only [List.foldl_nil, encL_nil, List.append_nil, List.length_nil, Nat.add_zero]
     rw [← h.1]
   | cons e les ih =>
@@ -324,9 +462,20 @@ theorem batchFold_spec (p : WalParams) (hp : p.WF) (crc : Bytes → Nat) :
       · have := h.2.1
         simp only [at_buffered, List.length_append]; omega
       · simp only [at_buffered, at_cap]; omega
-    obtain ⟨bb2, evs2, heq2, hev2⟩ := ih _ A _ fl h2 (fun e' he' => hfit e' (by simp [he']))
+    obtain ⟨bb2, evs2, heq2, hev2, news2, hn1, hn2⟩ := ih _ A _ fl h2 (fun e' he' => hfit e' (by simp [he']))
       (by rw [heq]; simp only [at_cap, at_buffered]; omega)
-    refine ⟨bb2, evs2, ?_, ?_⟩
+    refine ⟨bb2, evs2, ?_, ?_, news2 ++ [newEv c "wal.batch.record"], ?_, ?_⟩
+    rotate_left 2
+    · rw [hn1, heq]
+      show news2 ++ (c.at "wal.batch.record").events = _
+      rw [at_events', List.append_assoc]; rfl
+    · intro ev hev
+      simp only [List.mem_append, List.mem_singleton] at hev
+      rcases hev with hev | rfl
+      · obtain ⟨a1, a2, a3⟩ := hn2 ev hev
+        rw [heq] at a2 a3
+        exact ⟨a1, a2, a3⟩
+      · exact ⟨rfl, rfl, rfl⟩
     · rw [List.foldl_cons, heq2, heq]
       have : e :: les = [e] ++ les := rfl
       rw [this, encL_append, encL_singleton]
@@ -357,7 +506,10 @@ theorem Inv.batch {p : WalParams} {crc : Bytes → Nat} {sync : Nat} {c : CSt} {
     Tight p crc (les.foldl (fun c e => writeEntry p crc (c.at "wal.batch.record") (toWal e)) c) L0 (last ++ les) ∧
     (les.foldl (fun c e => writeEntry p crc (c.at "wal.batch.record") (toWal e)) c).eng = c.eng := by
   obtain ⟨fl, hsh⟩ := ht
-  obtain ⟨bb, evs, heq, hevs⟩ := batchFold_spec p hp crc les c _ _ fl hsh hfit hroom
+  obtain ⟨bb, evs, heq, hevs, news, hnews, hnprop⟩ := batchFold_spec p hp crc les c _ _ fl hsh hfit hroom
+  have hnonsync : ∀ ev ∈ news, isSyncSite ev.site = false := by
+    intro ev hev; rw [(hnprop ev hev).1]; decide
+  have hsyn : syncedOf evs = syncedOf c.events := by rw [hnews]; exact syncedOf_append_nonsync news _ hnonsync
   have hsh' : Shape (les.foldl (fun c e => writeEntry p crc (c.at "wal.batch.record") (toWal e)) c)
       (L0.map (fullFile p crc)) (encL p crc (last ++ les)) fl := by
     rw [heq]
@@ -370,7 +522,43 @@ theorem Inv.batch {p : WalParams} {crc : Bytes → Nat} {sync : Nat} {c : CSt} {
   obtain ⟨s0, hg0, hs0, hl0⟩ := h.cur
   have hnew : ∀ s, s < c.eng.walNext → ∀ e ∈ les, s < e.seq := by
     intro s hs e he; rw [hseq e he]; exact hs
-  refine ⟨?_, ?_, ?_, ?_, ?_, ?_, ?_, ?_, ?_, ?_⟩
+  have hnewseq : ∀ e' ∈ les, c.eng.walNext ≤ e'.seq := fun e' he' => Nat.le_of_eq (hseq e' he').symm
+  refine ⟨?_, ?_, ?_, ?_, ?_, ?_, ?_, ?_, ?_, ?_, ?_, ?_⟩
+  rotate_left 10
+  · -- the synced image: no sync site inside a batch
+    have hpc : pcurEv (les.foldl (fun c e => writeEntry p crc (c.at "wal.batch.record") (toWal e)) c) = pcurEv c := by
+      rw [heq]; unfold pcurEv; simp only; rw [hsyn]
+    rw [hpc]; exact h.pcur.ext hnewseq (Nat.le_succ _)
+  · intro ev rest hsuf
+    rw [heq] at hsuf
+    have hsuf' : (ev :: rest) <:+ news ++ c.events := by rw [← hnews]; exact hsuf
+    rcases suffix_append_cases hsuf' with hold | ⟨pre, post, hpre, hrest⟩
+    · exact (h.pevs ev rest hold).ext hnewseq (Nat.le_succ _)
+    · have hmem : ev ∈ news := by rw [hpre]; simp
+      obtain ⟨_, b2, b3⟩ := hnprop ev hmem
+      have hsv : syncedOf (ev :: rest) = syncedOf c.events := by
+        rw [hrest]
+        have : ev :: (post ++ c.events) = (ev :: post) ++ c.events := rfl
+        rw [this]
+        apply syncedOf_append_nonsync
+        intro ev' hev'
+        exact hnonsync ev' (by rw [hpre]; simp only [List.mem_append]; right; exact hev')
+      obtain ⟨s, hg, hfi, hle, hw, hn, hac⟩ := h.pcur.ext (new := les) hnewseq (Nat.le_succ c.eng.walNext)
+      refine ⟨s, ?_, ?_, ?_, ?_, hn, ?_⟩
+      · show Good p crc _ (syncedOf (ev :: rest)) s
+        rw [hsv]; exact hg
+      · show Fits p crc _ (syncedOf (ev :: rest))
+        rw [hsv]; exact hfi
+      · show (syncedOf (ev :: rest)).length ≤ _
+        rw [hsv]; exact hle
+      · show s ≤ ev.walNext
+        rw [b2]; exact hw
+      · intro h2
+        show ev.ackedSeq ≤ s
+        rw [b3]
+        have h3 : c.eng.lastSeq ≤ s := hac h2
+        have := h.acked
+        omega
   · rw [hsh'.1, List.map_append, map_fullFile_stream]; simp
   · intro f hf
     rw [hsh'.1] at hf
@@ -428,7 +616,8 @@ theorem rotateSites_eq (c : CSt) :
 
 theorem Inv.rotOpen {p : WalParams} {crc : Bytes → Nat} {sync : Nat} {c : CSt} {L : List (List LogEntry)} {nx : Nat}
     (h : Inv p crc sync c L nx) : Inv p crc sync (rotOpen c) (L ++ [[]]) nx := by
-  refine ⟨?_, ?_, ?_, ?_, h.nx_le, ?_, ?_, h.acked, h.last_lt, h.syn⟩
+  refine ⟨?_, ?_, ?_, ?_, h.nx_le, ?_, ?_, h.acked, h.last_lt, h.syn, h.pcur.newfile,
+    fun ev rest hsuf => (h.pevs ev rest hsuf).newfile⟩
   · simp only [CrashAux.rotOpen, List.map_append, h.streams]; rfl
   · intro f hf
     simp only [CrashAux.rotOpen, List.mem_append, List.mem_singleton] at hf
@@ -487,7 +676,7 @@ theorem Inv.rotClose {p : WalParams} {crc : Bytes → Nat} {sync : Nat} {c : CSt
   have hsh : Shape (CrashAux.rotClose c) ((L0 ++ [last]).map (fullFile p crc)) (encL p crc []) 0 :=
     ⟨hfiles, rfl, Nat.zero_le _⟩
   refine ⟨?_, ⟨0, hsh⟩⟩
-  refine ⟨?_, ?_, h.ok, h.lt, h.nx_le, h.evs, ?_, h.acked, h.last_lt, h.syn⟩
+  refine ⟨?_, ?_, h.ok, h.lt, h.nx_le, h.evs, ?_, h.acked, h.last_lt, h.syn, h.pcur, h.pevs⟩
   · rw [hfiles, List.map_append, map_fullFile_stream]; simp
   · intro f hf'
     rw [hfiles] at hf'
